@@ -66,10 +66,10 @@ fn clone_adapters(a: &[Adapter]) -> Vec<Adapter> {
 fn clone_source(s: &Source) -> Source {
     match s { Source::Iter(e) => Source::Iter(e.clone()), Source::IterMut(e) => Source::IterMut(e.clone()), Source::Range(a, b) => Source::Range(a.clone(), b.clone()), Source::VecVal(e) => Source::VecVal(e.clone()), Source::SliceRange(e, a, b, m) => Source::SliceRange(e.clone(), a.clone(), b.clone(), *m) }
 }
-pub struct Lower { pub n: usize, pub sites: usize, pub vec_params: Vec<String>, pub last_sink_name: Option<(String, syn::Ident)>, pub last_src_name: Option<syn::Ident> }
+pub struct Lower { pub n: usize, pub sites: usize, pub vec_params: Vec<String>, pub last_sink_name: Option<(String, syn::Ident)>, pub last_src_name: Option<syn::Ident>, pub plain_rust: bool }
 
 impl Lower {
-    pub fn new(vec_params: Vec<String>) -> Self { Lower { n: 0, sites: 0, vec_params, last_sink_name: None, last_src_name: None } }
+    pub fn new(vec_params: Vec<String>) -> Self { Lower { n: 0, sites: 0, vec_params, last_sink_name: None, last_src_name: None, plain_rust: false } }
     fn fresh(&mut self, p: &str) -> syn::Ident { let i = format_ident!("__{}{}", p, self.n); self.n += 1; i }
 
     // bind `pat` to value expression `val`, eliminating `&x` reference patterns (rule P)
@@ -100,7 +100,7 @@ impl Lower {
         quote! { { #(#binds)* #body } }
     }
 
-    fn src_len(&self, s: &Source) -> TokenStream { match s { Source::Iter(e) | Source::IterMut(e) | Source::VecVal(e) => quote!(#e.len()), Source::Range(a, b) => quote!((#b) - (#a)), Source::SliceRange(e, a, b, _) => quote!(__o_slice_range_len(#e.len(), #a, #b)) } }
+    fn src_len(&self, s: &Source) -> TokenStream { match s { Source::Iter(e) | Source::IterMut(e) | Source::VecVal(e) => quote!(#e.len()), Source::Range(a, b) => quote!((#b) - (#a)), Source::SliceRange(e, a, b, _) => if self.plain_rust { quote!({ let _ = &#e[#a..#b]; (#b) - (#a) }) } else { quote!(__o_slice_range_len(#e.len(), #a, #b)) } } }
     fn src_item(&self, s: &Source, k: &TokenStream) -> TokenStream { match s { Source::Iter(e) => quote!(&#e[#k]), Source::IterMut(e) => quote!(&mut #e[#k]), Source::VecVal(e) => quote!(#e[#k]), Source::Range(a, _) => quote!((#a) + #k), Source::SliceRange(e, a, _, m) => if *m { quote!(&mut #e[(#a) + #k]) } else { quote!(&#e[(#a) + #k]) } } }
 
     fn emit(&mut self, ch: &Chain, sink: Sink) -> Expr {
@@ -122,7 +122,7 @@ impl Lower {
         let it = self.fresh("it");
         let mut len = self.src_len(&ch.source);
         let rev = ch.adapters.iter().any(|a| matches!(a, Adapter::Rev));
-        for a in &ch.adapters { if let Adapter::Zip(s2) = a { let l2 = self.src_len(s2); len = quote!(__o_min_len(#len, #l2)); } }
+        for a in &ch.adapters { if let Adapter::Zip(s2) = a { let l2 = self.src_len(s2); len = if self.plain_rust { quote!({ let __a = #len; let __b = #l2; if __a <= __b { __a } else { __b } }) } else { quote!(__o_min_len(#len, #l2)) }; } }
         let n = self.fresh("n");
         let idx: TokenStream = if rev { quote!(#n - 1 - #k) } else { quote!(#k) };
         let is_mut = matches!(ch.source, Source::IterMut(_));
@@ -281,7 +281,7 @@ impl VisitMut for Lower {
             }
             // rule M (call site): a lazy chain passed as `&mut CHAIN` is materialised and the callee's
             // vector instance is called instead
-            Expr::Call(c) if c.args.len() == 1 && matches!(strip(&c.args[0]), Expr::Reference(r) if r.mutability.is_some() && parse_chain(&r.expr).map(|ch| !ch.adapters.is_empty()).unwrap_or(false)) => {
+            Expr::Call(c) if !self.plain_rust && c.args.len() == 1 && matches!(strip(&c.args[0]), Expr::Reference(r) if r.mutability.is_some() && parse_chain(&r.expr).map(|ch| !ch.adapters.is_empty()).unwrap_or(false)) => {
                 if let Expr::Reference(r) = strip(&c.args[0]) {
                     let ch = parse_chain(&r.expr).unwrap();
                     let mat = self.emit(&ch, Sink::Collect);
